@@ -133,6 +133,8 @@ KINDS = {
     "TUintptr": dict(t="uintptr", bits=64, typed=True, ops={"ld", "st", "add", "swp", "cas", "and", "or"}, fn="Uintptr"),
     "TPointer": dict(t="*cell", bits=0, typed=True, ops={"ld", "st", "swp", "cas"}, fn="Pointer[cell]"),
     "TBool": dict(t="bool", bits=1, typed=True, ops={"ld", "st", "swp", "cas"}, fn="Bool"),
+    # atomic.Value holding int64: a fresh Value per round; 0 stands for "nothing stored yet" (Load returns nil)
+    "TValue": dict(t="any", bits=-1, typed=True, ops={"ld", "st", "swp", "cas"}, fn="Value"),
 }
 PAT = {32: "0x00010001", 64: "0x0000000100000001"}
 
@@ -143,6 +145,8 @@ def kind_ok(kind, init, threads):
         for o in t:
             if o["k"] not in K["ops"]:
                 return False
+            if K["bits"] == -1 and ((o["k"] in ("st", "swp") and o["v"] == 0) or (o["k"] == "cas" and o["w"] == 0)):
+                return False      # nil cannot be stored into a Value
             if K["bits"] == 1 and (o["v"] > 1 or o["w"] > 1):
                 return False
     if K["bits"] == 1 and any(v > 1 for v in init):
@@ -153,6 +157,8 @@ def kind_ok(kind, init, threads):
 def enc(kind, v):
     """Go expression of the embedded value v for this kind"""
     K = KINDS[kind]
+    if K["bits"] == -1:
+        return "nil" if v == 0 else "int64(%d * %s)" % (v, PAT[64])
     if K["bits"] == 1:
         return "true" if v else "false"
     if K["bits"] == 0:
@@ -164,6 +170,8 @@ def enc(kind, v):
 
 def dec(kind, e):
     K = KINDS[kind]
+    if K["bits"] == -1:
+        return "dval(%s)" % e
     if K["bits"] == 1:
         return "b2i(%s)" % e
     if K["bits"] == 0:
@@ -214,6 +222,8 @@ def op_code(kind, o, loc, ri):
 
 def loc_decl(kind):
     K = KINDS[kind]
+    if K["bits"] == -1:
+        return "var L%s [3]struct {\n\tv *atomic.Value\n\t_ [120]byte\n}\n" % kind
     if K["typed"]:
         return "var L%s [3]struct {\n\tv atomic.%s\n\t_ [120]byte\n}\n" % (kind, K["fn"])
     return "var L%s [3]struct {\n\tv %s\n\t_ [120]byte\n}\n" % (kind, K["t"])
@@ -256,6 +266,18 @@ func d64(u uint64) int64 {
 		return 99
 	}
 	return int64(u / 0x0000000100000001)
+}
+
+// the int64 held by an atomic.Value (nil: nothing stored yet)
+func dval(v any) int64 {
+	if v == nil {
+		return 0
+	}
+	x, ok := v.(int64)
+	if !ok {
+		return 99
+	}
+	return d64(uint64(x))
 }
 
 func dptr(p unsafe.Pointer) int64 {
@@ -426,7 +448,12 @@ def gen_program(tests, rounds):
         fs = []
         for l, v in enumerate(t["init"]):
             loc = "L%s[%d]" % (kind, l)
-            rs.append(op_code(kind, {"k": "st", "v": v, "w": 0}, loc, None))
+            if K["bits"] == -1:
+                rs.append("%s.v = new(atomic.Value)" % loc)
+                if v:
+                    rs.append(op_code(kind, {"k": "st", "v": v, "w": 0}, loc, None))
+            else:
+                rs.append(op_code(kind, {"k": "st", "v": v, "w": 0}, loc, None))
             fs.append("m[%d] = " % l + op_code(kind, {"k": "ld", "v": 0, "w": 0}, loc, None))
         out.append("func reset%d() {\n\t%s\n}\n" % (t["id"], "\n\t".join(rs)))
         out.append("func final%d(m *[4]int64) {\n\t%s\n}\n" % (t["id"], "\n\t".join(fs)))
